@@ -195,7 +195,9 @@ EXPORT errno_t _memcmp32_s_chk(const uint32_t *dest, rsize_t dlen,
     *diff = 0;
     while (dlen != 0 && slen != 0) {
         if (*dest != *src) {
-            *diff = *dest - *src; /* in units of int32 */
+            /* the difference of two uint32_t need not fit an int: keep its
+               sign */
+            *diff = *dest < *src ? -1 : 1;
             break;
         }
 
